@@ -220,7 +220,7 @@ def run(tier):
     W.self_check()
     ftier = 'quick' if tier == 'quick' else 'thorough'
     shapes = [s for s in F.family(ftier) if F.cpp_full_eligible(s)]
-    chunks = X.prepare(work, shapes, chunk=8)
+    chunks = X.prepare(work, shapes, chunk=8, also_O0=True)
     errors = [c['error'] for c in chunks if c['error']]
     from . import cppqueries as Q
     tasks = []
@@ -234,6 +234,13 @@ def run(tier):
                 tasks.append(dict(query='q_size_agreement', oid='%s/size/%s' % (s.name, pid), ll=c['ll'], chunk=c['idx'], shape=s.name, family=ftier,
                                   lens=list(lens), pres=list(pres), arms=list(arms), ends=['le', 'be'], timeout=60 if tier == 'quick' else 300,
                                   desc=dict(shape=s.name, check='size-agreement', lengths=list(lens), presence=list(pres), arms=list(arms),
+                                            symbolic='every scalar / enum field of the object')))
+            # the same query over the unoptimised IR (-O0) for the largest structure choices
+            for (lens, pres, arms) in list(Q.object_profiles(s, cap=cap))[-(2 if tier == 'quick' else 8):]:
+                pid = 'n%s.p%s.a%s' % ('x'.join(map(str, lens)) or '-', ''.join(map(str, pres)) or '-', ''.join(map(str, arms)) or '-')
+                tasks.append(dict(query='q_size_agreement', oid='%s/size-O0/%s' % (s.name, pid), ll=c['ll0'], chunk=c['idx'], shape=s.name, family=ftier,
+                                  lens=list(lens), pres=list(pres), arms=list(arms), ends=['le', 'be'], timeout=90 if tier == 'quick' else 400,
+                                  desc=dict(shape=s.name, check='size-agreement', ir='-O0', lengths=list(lens), presence=list(pres), arms=list(arms),
                                             symbolic='every scalar / enum field of the object')))
     pat = os.environ.get('VF_ONLY')
     if pat:
